@@ -117,4 +117,16 @@ PROPS = {
         "design_ref": "DESIGN.md 6/C18",
         "modelled": "Go panics as a result value of thunks/conditions/atoms; recover is absent from seq (source fact)",
     },
+    "C10": {
+        "module": "GoCo.Props.C10",
+        "theorems": ["GoCo.C10.C10_string", "GoCo.C10.C10_int", "GoCo.C10.C10_wrapper", "GoCo.C10.C10_progress",
+                     "GoCo.Iters.strIter_eq_range", "GoCo.Iters.intIter_eq_range", "GoCo.Iters.wrapIter_eq_runtime"],
+        "corr": [("k3", "native"), ("k3", "model"), ("k3", "spec")],
+        "search": ["k3:native"],
+        "level_text": "Kernel-checked for EVERY input: the string iterator delivers exactly Go's (byte offset, rune) pairs incl. U+FFFD on every invalid sequence; the integer iterator delivers 0..n-1 (nothing for n<=0); the map/channel wrappers deliver each runtime step exactly once. K3 compares, in one process, every iterator with Go's native range statement (all byte strings up to length 3/4 over a 22-byte hostile alphabet + random longer ones, ints -3..12, slices under mutation scripts incl. append reallocation, maps with nil interface keys/values and deletion, channels), the Lean model with the implementation, and the Lean specification with native range.",
+        "level_note": "Theorems are about the Lean model GoCo/Iters of seq/iter.go. Partial: slices are covered by K3 only; map iteration order/deletion and channel receive are the Go runtime's and enter the model as a parameter; decodeRune stands for unicode/utf8.DecodeRuneInString (validated exhaustively on short strings).",
+        "technique": "Lean 4 proofs by induction over all inputs (UTF-8 range semantics, integer range) + in-process differential against Go's native range",
+        "design_ref": "DESIGN.md 6/C10",
+        "modelled": "seq/iter.go integerIter, stringIter, map/chan wrappers; unicode/utf8 as a Lean function; reflect.MapIter and channel receive as parameters",
+    },
 }
